@@ -21,7 +21,8 @@ CONSTANTS MaxN,        \* classes per hierarchy
           RelFiles,    \* sequence of component-relative file ids
           AccAttrs,    \* what the machine may access: subset of {"media", "template", "js", "css"}
           AccVias,     \* subset of {"cls", "inst"}
-          ImplD        \* the deviation set ImplRefines is evaluated for
+          ImplD,       \* the deviation set ImplRefines is evaluated for
+          Trim         \* TRUE: drop near-duplicate choices (quick tier), see Trimmed
 
 VARIABLES nacc, ist          \* number of accesses made; state of the implementation-shaped model
 mcVars == <<kase, memo, ret, nacc, ist>>
@@ -85,11 +86,19 @@ Cands(n) ==
            b \in BaseChoices(n), l \in Lists, e \in ExtChoices(n), a \in Attrs}
    ELSE {})
 
+\* Quick-tier reduction of the catalogue: a class without listed bases gets extend = False with
+\* one Media content only (True / False select the same bases there), and of the two orders of
+\* a two-class extend list only the descending one is kept.
+Trimmed(r) ==
+  Trim => /\ (r.bases = <<>> /\ r.ext = "false") =>
+               r.lists = (CHOOSE l \in Lists : l # L0 /\ \A m \in Lists \ {L0} : Len(l.js) >= Len(m.js))
+          /\ (r.ext = "list" /\ Len(r.extl) = 2) => r.extl[1] > r.extl[2]
+
 MCInit == /\ kase = [cls |-> <<>>, rel |-> RelFiles]
           /\ memo = <<>> /\ ret = NoRet /\ nacc = 0 /\ ist = ImplInit
 
 AddClass == /\ N(kase) < MaxN /\ nacc = 0 /\ Valid(kase)
-            /\ \E r \in Cands(N(kase)) : kase' = [kase EXCEPT !.cls = Append(@, r)]
+            /\ \E r \in Cands(N(kase)) : Trimmed(r) /\ kase' = [kase EXCEPT !.cls = Append(@, r)]
             /\ UNCHANGED <<memo, ret, nacc, ist>>
 
 MCAccess == /\ nacc < MaxAcc /\ N(kase) >= 1 /\ Valid(kase)
